@@ -342,6 +342,64 @@ def gen_pinned_near_end(rng):
     return s
 
 
+def with_unused_node(s, rng):
+    """a node no bar starts or ends at (left over after a bar was removed): valid input, part of the structure"""
+    xs = [x for x, y, c in s.nodes.values()]
+    ys = [y for x, y, c in s.nodes.values()]
+    s.nodes["unused"] = (max(xs) + (max(xs) - min(xs) or Fr(8)) / 2, min(ys), rng.choice([(True, True, True), (False, False, False), (True, True, False)]))
+    s.meta = dict(getattr(s, "meta", {}), kind=getattr(s, "meta", {}).get("kind", "?") + "+unused-node")
+    return s
+
+
+def gen_doubled_tie(rng):
+    """two members pinned at both ends between the same two free joints (twin rods, a rod beside a beam): both
+    share the joints' dx / dy equations"""
+    s = Structure()
+    std_mat_sec(s)
+    s.mats["alu"] = (Fr("0.0000027"), Fr(7000000), Fr(2600000), Fr("0.33"), Fr(16000), Fr(30000))
+    a = Fr(rng.choice(["100", "50", "10"]))
+    s.nodes = {"a": (Fr(0), Fr(0), (True, True, True)), "j1": (3 * a, Fr(0), (False, False, False)), "j2": (6 * a, 4 * a, (False, False, False)),
+               "b": (9 * a, Fr(0), (True, True, False))}
+    pin, rig = LINKS["pin"], LINKS["rigid"]
+    s.bars = [{"id": "p1", "n1": "a", "l1": rig, "n2": "j1", "l2": rig, "mat": "steel", "sec": "ipe"},
+              {"id": "tie1", "n1": "j1", "l1": pin, "n2": "j2", "l2": pin, "mat": "steel", "sec": "ipe"},
+              {"id": "tie2", "n1": "j1" if rng.random() < 0.5 else "j2", "l1": pin, "n2": "j2", "l2": pin, "mat": "alu", "sec": "ipe"},
+              {"id": "p2", "n1": "j2", "l1": rig, "n2": "b", "l2": rig, "mat": "steel", "sec": "ipe"},
+              {"id": "p3", "n1": "j1", "l1": rig, "n2": "b", "l2": pin, "mat": "steel", "sec": "ipe"}]
+    if s.bars[2]["n1"] == "j2":
+        s.bars[2]["n2"] = "j1"
+    s.loads = [{"kind": "c", "term": "fy", "local": False, "bar": "p2", "t": Fr(0), "v": Fr(-900)},
+               {"kind": "c", "term": "fx", "local": False, "bar": "tie1", "t": Fr(0), "v": Fr(300)}]
+    s.meta = {"kind": "doubled-tie"}
+    return s
+
+
+def gen_name_collision(rng):
+    """materials and sections whose names run into each other when joined with a blank:
+    ('A', '36 W8') and ('A 36', 'W8'); different density x area"""
+    s = gen_portal(rng)
+    steel, ipe = list(s.mats.values())[0], list(s.secs.values())[0]
+    s.mats = {"A": steel, "A 36": (steel[0] * 3, steel[1], steel[2], steel[3], steel[4], steel[5])}
+    s.secs = {"36 W8": ipe, "W8": (ipe[0] * 2, ipe[1], ipe[2], ipe[3], ipe[4])}
+    for k, b in enumerate(s.bars):
+        b["mat"], b["sec"] = ("A", "36 W8") if k % 2 == 0 else ("A 36", "W8")
+    s.meta = {"kind": "name-collision"}
+    return s
+
+
+def gen_disparate_loads(rng):
+    """a small load next to a very large one: the small step in the diagrams is still a step"""
+    s = gen_beam(rng)
+    b = s.bars[0]
+    big = Fr(rng.choice([150000, 200000, -180000]))
+    s.loads = [{"kind": "c", "term": "fy", "local": True, "bar": b["id"], "t": Fr(1) if not any(s.nodes[b["n2"]][2]) else Fr("0.75"), "v": big},
+               {"kind": "c", "term": "fy", "local": True, "bar": b["id"], "t": Fr("0.5"), "v": Fr(rng.choice([1, -2, 3]))},
+               {"kind": "c", "term": "fx", "local": True, "bar": b["id"], "t": Fr("0.25"), "v": Fr(rng.choice([1, -1]))},
+               {"kind": "c", "term": "fx", "local": True, "bar": b["id"], "t": Fr(1) if not s.nodes[b["n2"]][2][0] else Fr("0.85"), "v": big}]
+    s.meta = {"kind": "disparate-loads"}
+    return s
+
+
 def gen_doubled_nodes(rng):
     """distinct nodes at the same coordinates (members that cross without being connected, a doubled
     node): each is its own set of unknowns"""
